@@ -36,13 +36,16 @@ PROBES = ["derived_object_as_base_argument", "same_object_two_handles", "delete_
           "shared_pointer_argument", "default_argument_omitted", "illformed_call_refused", "pair_return",
           "property_roundtrip", "inherited_method_called", "enum_argument", "enum_return",
           "retained_object_returned_twice", "calls_after_unload", "nonconst_reference_argument",
-          "uint64_argument_above_2_53"]
+          "uint64_argument_above_2_53", "class_typed_property_read", "class_typed_property_written",
+          "template_instantiation_used"]
 
 
 def batches(tier):
     if tier == "thorough":
-        return [dict(name="hist", runs=60000, budget_s=1100, per_run_timeout=180)]
-    return [dict(name="hist", runs=1600, budget_s=55, per_run_timeout=120)]
+        return [dict(name="hist", runs=60000, budget_s=1100, per_run_timeout=180),
+                dict(name="thisargs", runs=600, budget_s=30, per_run_timeout=180)]
+    return [dict(name="hist", runs=1600, budget_s=55, per_run_timeout=120),
+            dict(name="thisargs", runs=48, budget_s=8, per_run_timeout=120)]
 
 
 def nprograms(tier):
@@ -86,11 +89,15 @@ def describe():
 # ---------------------------------------------------------------------------
 def _build_program(args):
     k, seed, tmp, repo = args
-    d = os.path.join(tmp, "prog%d" % k)
+    d = os.path.join(tmp, "prog%d" % k if k >= 0 else "progT")
     os.makedirs(d)
     tape = Tape(seed=seed)
-    force = [["chain"], ["enum"], ["objargs"], ["chain", "objargs"], [], ["enum", "chain"]][k % 6]
-    prog, itext, lib = MP.generate(tape, {"enums": True, "force": force})
+    force = [["chain"], ["enum", "template"], ["objargs"], ["chain", "objargs", "template"], [], ["enum", "chain"],
+             ["template"], ["objargs", "template"]][k % 8]
+    feats = {"enums": True, "force": force}
+    if k < 0:          # the `thisargs` program: class templates using `This` as argument / return everywhere
+        feats = {"enums": False, "force": ["template", "template"], "this_args": True}
+    prog, itext, lib = MP.generate(tape, feats)
     open(os.path.join(d, "prog.i"), "w").write(itext)
     open(os.path.join(d, "lib.h"), "w").write(lib)
     # the real generator, in a separate interpreter so that nothing leaks between programs
@@ -147,6 +154,7 @@ def prepare(tier, seed):
     tmp = tempfile.mkdtemp(prefix="verif-c11-")
     n = nprograms(tier)
     jobs = [(k, derive_seed(seed, "C11/program", k), tmp, REPO) for k in range(n)]
+    jobs.append((-1, derive_seed(seed, "C11/program", 1000), tmp, REPO))
     progs = []
     try:
         with concurrent.futures.ProcessPoolExecutor(max_workers=16,
@@ -170,7 +178,8 @@ def prepare(tier, seed):
                       for ln in ce.splitlines() if "error" in ln):
             shutil.rmtree(tmp, ignore_errors=True)
             raise RuntimeError("the harness's own C++ does not compile (program %d): %s" % (info["k"], ce[:800]))
-    return {"tmp": tmp, "programs": progs}
+    special = [p for p in progs if p["k"] < 0]
+    return {"tmp": tmp, "programs": [p for p in progs if p["k"] >= 0], "thisargs": special[0]}
 
 
 def cleanup(ctx):
@@ -215,6 +224,7 @@ class Hist:
             self.by_entity[f.entity] = (None, f)
         self.tr = Tracker(self.prog)
         self.copies = {}        # serial -> serial it was copied from
+        self.members = {}       # serial -> serials of its class-typed data members
         self.retained_on = False
         self.unloaded_since_call = False
 
@@ -323,6 +333,8 @@ class Hist:
         for e in acc:
             if e["entity"] == "copy":
                 self.copies[e["self"]] = int(e["args"][0])
+            elif e["entity"] == "own":
+                self.members.setdefault(e["self"], set()).add(int(e["args"][0]))
             else:
                 evs.append(e)
         return evs
@@ -475,7 +487,7 @@ class Hist:
             if o.oid in self.tr.serial:
                 designated[self.tr.serial[o.oid]] = designated.get(self.tr.serial[o.oid], 0) + len(o.ptrs)
         live = set(st["live"])
-        want = set(designated) | self.tr.retained
+        want = self.with_members(set(designated) | self.tr.retained)
         if live != want:
             lost = sorted(want - live)
             leaked = sorted(live - want)
@@ -487,6 +499,17 @@ class Hist:
             self.add("G4", "G4:double-destroy", "after %s: an object was destroyed twice" % after)
             return False
         return True
+
+    def with_members(self, serials):
+        """class-typed data members live inside (and die with) their owners"""
+        want = set(serials)
+        todo = list(want)
+        while todo:
+            for mser in self.members.get(todo.pop(), ()):
+                if mser not in want:
+                    want.add(mser)
+                    todo.append(mser)
+        return want
 
     def check_use_counts(self):
         cnt = {}
@@ -604,6 +627,8 @@ class Hist:
             return
         ev = ctor_evs[0]
         ec, ef = self.by_entity[ev["entity"]]
+        if getattr(c, "tpl", None) is not None:
+            self.pr("template_instantiation_used")
         if ec is not c:
             self.add("G1", "G1:wrong-class", "constructing %s ran the constructor of %s" % (c.qname, ec.qname))
             return
@@ -714,7 +739,13 @@ class Hist:
         except S.MatlabError as e:
             if self.expect_throw:
                 return self.after_exception(e)
-            self.add("G1", "G1:wellformed-call-refused", "%s raised: %s" % (what, e.msg))
+            g = getattr(f, "generic", None)
+            cls = "wellformed-call-refused"
+            if g is not None and any(a.ty.kind == "this" for a in g.args):
+                cls = "template-This-argument-refused"
+            elif g is not None and g.ret is not None and not isinstance(g.ret, tuple) and g.ret.kind == "this":
+                cls = "template-This-return-unknown-class"
+            self.add("G1", "G1:%s" % cls, "%s raised: %s" % (what, e.msg))
             return
         if self.expect_throw:
             self.expect_throw = False
@@ -814,7 +845,20 @@ class Hist:
             return
         self.absorb_trace()
         key = (self.tr.serial.get(o.oid), pn)
-        if key in self.propvals:
+        if pt.kind == "class":
+            # the getter hands out a copy of the member object as a new MATLAB object
+            if not isinstance(v, S.MObject):
+                self.add("G2", "G2:property", "%r.%s is a %s property but reads %r" % (o, pn, pt.name, v))
+                return
+            who = self.s.whois(v, "ptr_" + camel(pt.name))
+            owner = self.tr.serial.get(o.oid)
+            if who is None or not any(who[0] == m or self.is_copy_of(who[0], m) for m in self.members.get(owner, ())):
+                self.add("G2", "G2:property", "%r.%s returned an object designating %s, which is not a copy of the "
+                         "member object(s) %s" % (o, pn, who, sorted(self.members.get(owner, ()))))
+                return
+            self.tr.serial[v.oid] = who[0]
+            self.pr("class_typed_property_read")
+        elif key in self.propvals:
             want = self.propvals[key]
             if not self.same_value(pt, v, want):
                 self.add("G2", "G2:property", "%r.%s reads %r after %r was stored" % (o, pn, v, want))
@@ -868,7 +912,10 @@ class Hist:
             self.add("G1", "G1:property-set-raised", e.msg)
             return
         self.absorb_trace()
-        self.propvals[(self.tr.serial.get(o.oid), pn)] = val
+        if pt.kind != "class":
+            self.propvals[(self.tr.serial.get(o.oid), pn)] = val
+        else:
+            self.pr("class_typed_property_written")
         self.finish_step("set %s" % pn)
 
     def op_delete(self, objs):
@@ -928,7 +975,7 @@ class Hist:
         st = self.s.last_state
         if any(st["coll"].values()):
             self.add("G6", "G6:collector-not-empty", "after unload collectors hold %s" % st["coll"])
-        extra = sorted(set(st["live"]) - self.tr.retained)
+        extra = sorted(set(st["live"]) - self.with_members(self.tr.retained))
         if extra:
             self.add("G6", "G6:leak-after-unload", "objects %s are alive after every MATLAB object was deleted and "
                      "the module unloaded, and the library does not retain them" % extra)
@@ -950,8 +997,11 @@ class Hist:
 
 def run_one(batch, tape, ctx):
     progs = ctx["programs"]
-    k = tape.choose(len(progs), "program")
-    info = progs[k]
+    if batch == "thisargs":
+        k, info = -1, ctx["thisargs"]
+    else:
+        k = tape.choose(len(progs), "program")
+        info = progs[k]
     if info.get("compile_error"):
         return {"violations": [{"inv": "G0", "sig": "G0:gateway-does-not-compile",
                                 "detail": "the generated gateway of program %d does not compile against a library "
